@@ -18,6 +18,19 @@ type IndexSpec struct {
 	Range  string `json:"range,omitempty"`
 	RangeT string `json:"ranget,omitempty"`
 	Local  bool   `json:"local,omitempty"`
+	// Proj is the declared ProjectionType ("" = ALL, KEYS_ONLY, INCLUDE); NonKey the
+	// NonKeyAttributes of INCLUDE. minidyn records the projection and reports it in
+	// DescribeTable; it does not trim index reads by it.
+	Proj   string   `json:"proj,omitempty"`
+	NonKey []string `json:"nonkey,omitempty"`
+}
+
+// ProjType is the declared projection type with the default filled in.
+func (ix IndexSpec) ProjType() string {
+	if ix.Proj == "" {
+		return "ALL"
+	}
+	return ix.Proj
 }
 
 // TableSpec declares a table.
@@ -56,37 +69,38 @@ type IndexChange struct {
 
 // Op is an abstract operation. One struct for all kinds keeps journals and replays simple.
 type Op struct {
-	Kind   string            `json:"kind"`
-	Client int               `json:"client,omitempty"`
-	Table  string            `json:"table,omitempty"`
-	Item   val.Item          `json:"item,omitempty"`
-	Key    val.Item          `json:"key,omitempty"`
-	Cond   string            `json:"cond,omitempty"`
-	Update string            `json:"update,omitempty"`
-	KeyCnd string            `json:"keycond,omitempty"`
-	NoKC   bool              `json:"nokc,omitempty"` // Query without any KeyConditionExpression field
-	Filter string            `json:"filter,omitempty"`
-	Proj   string            `json:"proj,omitempty"` // ProjectionExpression (get, query, scan)
+	Kind   string   `json:"kind"`
+	Client int      `json:"client,omitempty"`
+	Table  string   `json:"table,omitempty"`
+	Item   val.Item `json:"item,omitempty"`
+	Key    val.Item `json:"key,omitempty"`
+	Cond   string   `json:"cond,omitempty"`
+	Update string   `json:"update,omitempty"`
+	KeyCnd string   `json:"keycond,omitempty"`
+	NoKC   bool     `json:"nokc,omitempty"` // Query without any KeyConditionExpression field
+	Filter string   `json:"filter,omitempty"`
+	Proj   string   `json:"proj,omitempty"` // ProjectionExpression (get, query, scan)
 	// read options (get, query, scan, batchget): they may narrow what THIS call returns, never what is stored
-	AttrsToGet []string `json:"attrstoget,omitempty"` // legacy AttributesToGet
-	Consistent bool     `json:"consistent,omitempty"` // ConsistentRead
-	Select     string   `json:"select,omitempty"`     // query, scan: ALL_ATTRIBUTES | COUNT | SPECIFIC_ATTRIBUTES ...
-	Names  map[string]string `json:"names,omitempty"`
-	Values val.Item          `json:"values,omitempty"`
-	Index  string            `json:"index,omitempty"`
-	Limit  int               `json:"limit,omitempty"`
-	Start  val.Item          `json:"start,omitempty"`
-	Rev    bool              `json:"rev,omitempty"`
-	RetOld bool              `json:"retold,omitempty"`  // ReturnValues=ALL_OLD
-	RetCCF bool              `json:"retccf,omitempty"`  // ReturnValuesOnConditionCheckFailure=ALL_OLD
-	Spec   *TableSpec        `json:"spec,omitempty"`    // createtable
-	Chg    []IndexChange     `json:"changes,omitempty"` // updatetable
-	Defs   [][2]string       `json:"defs,omitempty"`    // updatetable: attribute definitions (name, type) declared explicitly by the request
-	NoDefs bool              `json:"nodefs,omitempty"`  // updatetable: do NOT declare the key attributes of created indexes (they may have been declared by an earlier request)
-	Ix     *IndexSpec        `json:"ix,omitempty"`      // addindex (helper; S keys only)
-	Batch  []BatchEntry      `json:"batch,omitempty"`
-	Gets   []BatchEntry      `json:"gets,omitempty"` // batchget: Table + Del(=key)
-	Fail   string            `json:"fail,omitempty"` // emulate: none|internal_server|deprecated
+	AttrsToGet []string          `json:"attrstoget,omitempty"` // legacy AttributesToGet
+	Consistent bool              `json:"consistent,omitempty"` // ConsistentRead
+	NoUpdate   bool              `json:"noupdate,omitempty"`   // UpdateItem without any UpdateExpression (nil pointer, not "")
+	Select     string            `json:"select,omitempty"`     // query, scan: ALL_ATTRIBUTES | COUNT | SPECIFIC_ATTRIBUTES ...
+	Names      map[string]string `json:"names,omitempty"`
+	Values     val.Item          `json:"values,omitempty"`
+	Index      string            `json:"index,omitempty"`
+	Limit      int               `json:"limit,omitempty"`
+	Start      val.Item          `json:"start,omitempty"`
+	Rev        bool              `json:"rev,omitempty"`
+	RetOld     bool              `json:"retold,omitempty"`  // ReturnValues=ALL_OLD
+	RetCCF     bool              `json:"retccf,omitempty"`  // ReturnValuesOnConditionCheckFailure=ALL_OLD
+	Spec       *TableSpec        `json:"spec,omitempty"`    // createtable
+	Chg        []IndexChange     `json:"changes,omitempty"` // updatetable
+	Defs       [][2]string       `json:"defs,omitempty"`    // updatetable: attribute definitions (name, type) declared explicitly by the request
+	NoDefs     bool              `json:"nodefs,omitempty"`  // updatetable: do NOT declare the key attributes of created indexes (they may have been declared by an earlier request)
+	Ix         *IndexSpec        `json:"ix,omitempty"`      // addindex (helper; S keys only)
+	Batch      []BatchEntry      `json:"batch,omitempty"`
+	Gets       []BatchEntry      `json:"gets,omitempty"` // batchget: Table + Del(=key)
+	Fail       string            `json:"fail,omitempty"` // emulate: none|internal_server|deprecated
 
 	// ASTs the expression texts above were rendered from (what the oracle evaluates).
 	CondAST   *refmodel.Cond   `json:"condast,omitempty"`
@@ -120,12 +134,14 @@ const (
 
 // IndexDesc is the normalised description of an index.
 type IndexDesc struct {
-	Name   string `json:"name"`
-	Local  bool   `json:"local,omitempty"`
-	Hash   string `json:"hash"`
-	Range  string `json:"range,omitempty"`
-	Count  int64  `json:"count"`
-	HasCnt bool   `json:"hascnt"` // whether the adapter reported an ItemCount at all
+	Name   string   `json:"name"`
+	Local  bool     `json:"local,omitempty"`
+	Hash   string   `json:"hash"`
+	Range  string   `json:"range,omitempty"`
+	Count  int64    `json:"count"`
+	HasCnt bool     `json:"hascnt"`           // whether the adapter reported an ItemCount at all
+	Proj   string   `json:"proj,omitempty"`   // reported ProjectionType ("" when the description has none)
+	NonKey []string `json:"nonkey,omitempty"` // reported NonKeyAttributes
 }
 
 // Desc is the normalised TableDescription.
@@ -156,21 +172,22 @@ const (
 
 // Outcome is the normalised result of an operation.
 type Outcome struct {
-	Class    string                `json:"class"`
-	Msg      string                `json:"msg,omitempty"`
-	Site     string                `json:"site,omitempty"` // panic call site inside minidyn
-	Item     val.Item              `json:"item,omitempty"` // Get item / Update attributes / Delete ALL_OLD; nil = none
-	Items    []val.Item            `json:"items,omitempty"`
-	Count    int64                 `json:"count,omitempty"`
-	LastKey  val.Item              `json:"lastkey,omitempty"`
-	Desc     *Desc                 `json:"desc,omitempty"`
-	Unproc   []BatchEntry          `json:"unproc,omitempty"`
-	Resp     map[string][]val.Item `json:"resp,omitempty"`
-	UnprocK  map[string][]val.Item `json:"unprock,omitempty"`
-	CCFItem  val.Item              `json:"ccfitem,omitempty"`
-	HasCCF   bool                  `json:"hasccf,omitempty"`
-	RespNil  bool                  `json:"respnil,omitempty"`  // output struct was nil although err==nil
-	OutAlong bool                  `json:"outalong,omitempty"` // non-nil output returned together with an error
+	Class        string                `json:"class"`
+	Msg          string                `json:"msg,omitempty"`
+	Site         string                `json:"site,omitempty"` // panic call site inside minidyn
+	Item         val.Item              `json:"item,omitempty"` // Get item / Update attributes / Delete ALL_OLD; nil = none
+	Items        []val.Item            `json:"items,omitempty"`
+	Count        int64                 `json:"count,omitempty"`
+	LastKey      val.Item              `json:"lastkey,omitempty"`
+	LastKeyEmpty bool                  `json:"lastkeyempty,omitempty"` // LastEvaluatedKey was a non-nil map without entries
+	Desc         *Desc                 `json:"desc,omitempty"`
+	Unproc       []BatchEntry          `json:"unproc,omitempty"`
+	Resp         map[string][]val.Item `json:"resp,omitempty"`
+	UnprocK      map[string][]val.Item `json:"unprock,omitempty"`
+	CCFItem      val.Item              `json:"ccfitem,omitempty"`
+	HasCCF       bool                  `json:"hasccf,omitempty"`
+	RespNil      bool                  `json:"respnil,omitempty"`  // output struct was nil although err==nil
+	OutAlong     bool                  `json:"outalong,omitempty"` // non-nil output returned together with an error
 }
 
 // OK reports success.
@@ -238,4 +255,13 @@ func (op Op) String() string {
 		return fmt.Sprintf("%#v", op)
 	}
 	return string(b)
+}
+
+// updExpr is the UpdateExpression pointer of an update: nil when the request carries none at all.
+func updExpr(op Op) *string {
+	if op.NoUpdate && op.Update == "" {
+		return nil
+	}
+	u := op.Update
+	return &u
 }
